@@ -156,6 +156,35 @@ func genAnyField(r *vh.Rand, name string) uField {
 	return u
 }
 
+// genInline: a field whose type is an anonymous schema defined in place (nested in the message)
+func genInline(r *vh.Rand, name string) uField {
+	u := uField{Name: name, Required: r.Chance(20), Bang: r.Bool(), PType: 11}
+	simple := func(n int) []uField {
+		ns := nameSet{}
+		var out []uField
+		for i := 0; i < n; i++ {
+			f := genScalarField(r, ns.fresh(func() string { return genIdent(r, r.Intn(2)) }, snakeKey, lowerKey))
+			out = append(out, f)
+		}
+		return out
+	}
+	switch r.Intn(3) {
+	case 0:
+		u.Inline, u.J5Kind = "object", "object"
+		u.InFields = simple(r.Range(0, 3))
+	case 1:
+		u.Inline, u.J5Kind = "oneof", "oneof"
+		for _, f := range simple(r.Range(1, 3)) {
+			f.Required, f.Optional, f.SayFalse = false, false, false
+			u.InFields = append(u.InFields, f)
+		}
+	default:
+		u.Inline, u.J5Kind, u.PType = "enum", "enum", 14
+		u.InOptions = vh.Pick(r, [][]string{{"A", "B"}, {"LOW", "MID", "HIGH"}, {"UNSPECIFIED", "ON"}, {"X"}})
+	}
+	return u
+}
+
 func genKeyTyped(r *vh.Rand, name string) uField {
 	u := uField{Name: name, Key: true, KeyFmt: vh.Pick(r, []string{"", "id62", "uuid", "id62"}), PType: 9, J5Kind: "key", Required: r.Chance(30), Bang: r.Bool(), SayFalse: r.Chance(30)}
 	if !u.Required && r.Chance(10) {
@@ -172,9 +201,12 @@ func genFields(r *vh.Rand, lo, hi int, reserved ...string) []uField {
 	var out []uField
 	for k := r.Range(lo, hi); k > 0; k-- {
 		name := ns.fresh(func() string { return genIdent(r, r.Intn(2)) }, snakeKey, lowerKey)
-		if r.Chance(20) {
+		switch {
+		case r.Chance(20):
 			out = append(out, genKeyTyped(r, name))
-		} else {
+		case r.Chance(7):
+			out = append(out, genInline(r, name))
+		default:
 			out = append(out, genAnyField(r, name))
 		}
 	}
@@ -329,7 +361,7 @@ func genEntityOpt(r *vh.Rand, second bool, forcedName string) *entityDecl {
 			}
 			var parts []string
 			for _, f := range m.Request {
-				if f.Container == "" && f.Ext == "" && r.Chance(50) {
+				if f.Container == "" && f.Ext == "" && f.Inline == "" && r.Chance(50) {
 					if r.Chance(40) {
 						parts = append(parts, vh.Pick(r, []string{"do", "items", "sub_path", "x"}))
 					}
@@ -400,6 +432,10 @@ func genEntityOpt(r *vh.Rand, second bool, forcedName string) *entityDecl {
 			var opts []uField
 			for _, f := range genFields(r, 1, 3) {
 				f.Required, f.Optional, f.SayFalse, f.Container = false, false, false, ""
+				if f.Inline != "" {
+					f = genScalarField(r, f.Name)
+					f.Required, f.Optional, f.SayFalse = false, false, false
+				}
 				opts = append(opts, f)
 			}
 			if pos := r.Intn(len(d.Schemas) + 1); true {
@@ -1460,5 +1496,44 @@ func countShape(res *vh.Result, e *entityDecl) {
 	}
 	if e.BaseURL != "" {
 		res.Count("with_base_url_override")
+	}
+	kinds := map[string]bool{}
+	var walk func(fs []uField)
+	walk = func(fs []uField) {
+		for _, f := range fs {
+			switch {
+			case f.Inline != "":
+				kinds["inline_"+f.Inline] = true
+			case f.Container != "":
+				kinds[f.Container] = true
+			case f.Ext != "":
+				kinds["wkt_"+f.J5Type] = true
+			}
+			if f.Optional && f.Container != "" {
+				kinds["optional_container"] = true
+			}
+		}
+	}
+	for _, k := range e.Keys {
+		walk([]uField{k.uField})
+	}
+	walk(e.Data)
+	for _, ev := range e.Events {
+		walk(ev.Fields)
+	}
+	for _, c := range e.Commands {
+		for _, m := range c.Methods {
+			walk(m.Request)
+			walk(m.Response)
+		}
+	}
+	for _, sm := range e.Summaries {
+		walk(sm.Fields)
+	}
+	for _, sc := range e.Schemas {
+		walk(sc.Fields)
+	}
+	for k := range kinds {
+		res.Count("fieldkind_" + k)
 	}
 }
